@@ -168,6 +168,20 @@ def run(ctx):
             res.case(tuple(sorted(obs['texts'].items())), True)
             res.count('permutation-cases')
             check_set(ctx, obs, reqs, metas)
+    # invalid modules with cyclic OID definitions: must come back as failed, not as an escaping exception
+    for k in (1, 2, 3):
+        names_c = ['cyc%d' % j for j in range(k)]
+        ct = 'CYC-MIB DEFINITIONS ::= BEGIN IMPORTS enterprises FROM SNMPv2-SMI;\n' + ''.join(
+            '%s OBJECT IDENTIFIER ::= { %s 1 }\n' % (names_c[j], names_c[(j + 1) % k]) for j in range(k)) + 'END\n'
+        res.case(('cyclic', ct), True)
+        res.count('cyclic-modules')
+        try:
+            stc, outc, compc = __import__('impl.pipeline', fromlist=['x']).compile_set({'CYC-MIB': ct}, backend='json')
+            if str(stc.get('CYC-MIB')) == 'compiled':
+                res.oracle_failures.append({'key': 'cyclic-accepted', 'what': 'a module whose OIDs are defined in a cycle compiles', 'input': {'texts': {'CYC-MIB': ct}}})
+        except BaseException as e:
+            res.oracle_failures.append({'key': 'escaped-exception', 'what': 'cyclic OID definition: %s escapes compile()' % type(e).__name__,
+                                        'input': {'texts': {'CYC-MIB': ct}, 'expect': 'no-exception'}})
     # SMIv1 modules: TRAP-TYPE OIDs (enterprise.0.n), OIDs under zero arcs
     import json as _json
     from gen import v1gen
@@ -202,6 +216,12 @@ def replay(payload):
     from impl import pipeline
     inp = payload['input']
     texts = inp['texts']
+    if inp.get('expect') == 'no-exception':
+        try:
+            pipeline.compile_set(texts, genTexts=True)
+            return {'fails': False}
+        except BaseException as e:
+            return {'fails': True, 'what': type(e).__name__}
     r, out, _ = pipeline.compile_set(texts, genTexts=True)
     bad = {k: str(v) for k, v in r.items() if k in texts and str(v) != 'compiled'}
     return {'fails': bool(bad), 'what': bad}
